@@ -3,7 +3,7 @@ from __future__ import annotations
 
 import ast
 
-from sa.engine.cfg import exc_name
+from sa.engine.cfg import exc_name, handler_names
 from sa.engine.facts import Bad, F
 from sa.engine.pattern import P, u, dump, find_all
 from sa.engine.source import norm, own_walk
@@ -101,14 +101,30 @@ def check(ctx):
         loops = [n for n in own_walk(close.node) if isinstance(n, ast.For) and isinstance(n.target, ast.Name)
                  and any(P(f"{n.target.id}.set()").match(b) is not None for b in n.body)
                  and _keys_of(n.iter, close.node, other_q)]
+        # the draining spelling: `while q: ev, _ = q.popitem(last=False); ev.set()` - wakes every entry and leaves the queue empty
+        drains = []
+        for n in own_walk(close.node):
+            if isinstance(n, ast.While) and not n.orelse and F(ast.unparse(n.test)) == F(f"self._state.{other_q}") \
+                    and not any(isinstance(x, (ast.Break, ast.Return, ast.Continue)) for x in ast.walk(n)):
+                takes = find_all(f"$E, $V = self._state.{other_q}.popitem($*A)", n)
+                if len(takes) == 1 and isinstance(takes[0][1]["E"], ast.Name) and find_all(f"{takes[0][1]['E'].id}.set()", n):
+                    drains.append(n)
+        if not loops and drains and clears:
+            loops = drains
         ctx.need("R13-b", close, f"loop setting the event of every entry of {other_q}", len(loops), 1)
         zero = [F(f"self._state.{ctr} == 0"), F(f"not self._state.{ctr}")]
-        for lp in loops:
-            fa = ctx.facts_at(close, lp)
-            ok = bool(fa) and all(any(z in x for z in zero) for x in fa)
-            ctx.ob("R13-b", close, "waiters are woken only by the last close", ok,
-                   detail="" if ok else f"the wake-all loop is reachable while {ctr} may be non-zero", node=lp, by=(f"{ctr} == 0",))
         lp_ids = {id(l) for l in loops}
+
+        def step1(st, e, c):
+            # the first arrival at the wake-all loop (later arrivals are its own back edges)
+            if e == "wakeall" and not st:
+                if not any(z in c.facts_before for z in zero):
+                    return Bad(f"the wake-all loop is reachable while {ctr} may be non-zero")
+                return True
+            return st
+
+        ctx.paths("R13-b", close, [("wakeall", [lambda frag, node, ids=lp_ids: node.kind in ("for_iter", "loop_head") and id(node.node) in ids])],
+                  step1, False, None, instance="waiters are woken only by the last close")
 
         def step2(st, e, c):
             if e == "wakeall":
@@ -120,13 +136,13 @@ def check(ctx):
                 return f"close() of the last clone ({ctr} == 0) returns without waking the tasks blocked on the other side"
             return None
 
-        ctx.paths("R13-b", close, [("wakeall", [lambda frag, node, ids=lp_ids: node.kind == "for_iter" and id(node.node) in ids])],
+        ctx.paths("R13-b", close, [("wakeall", [lambda frag, node, ids=lp_ids: node.kind in ("for_iter", "loop_head") and id(node.node) in ids])],
                   step2, False, at_exit2, instance=f"{cls}.close wakes all of {other_q} when the last clone closes")
         zkeys = {z[0] for z in zero}
         tests = [n for n in own_walk(close.node) if isinstance(n, ast.If) and F(ast.unparse(n.test))[0] in zkeys]      # either orientation
         ctx.need("R13-b", close, f"test for the last clone (`{ctr} == 0`)", len(tests), 1)
         if clears:
-            cl = ctx.sites(close, f"self._state.{other_q}.clear()")
+            cl = ctx.sites(close, f"self._state.{other_q}.clear()") or [(d, {}) for d in drains]
             ctx.ob("R13-b", close, "released receivers are removed from the queue", len(cl) == 1,
                    detail="" if cl else "waiting_receivers is not cleared when the last sender closes (a later send_nowait would hand an item to a released receiver)",
                    by=("clear()",))
@@ -188,7 +204,23 @@ def check(ctx):
                 def is_this_raise(frag, node, n=n):
                     return node.kind == "raise" and node.node is n
 
+                def is_reg_del(frag, node):
+                    # EAFP spelling of the same test: `try: del q[ev] except KeyError: ... else: raise` - the deletion succeeded, so the
+                    # registration was still there
+                    if frag is None or not find_all("del self._state.waiting_senders[$E]", frag):
+                        return False
+                    cur = getattr(frag, "_parent", None)
+                    prev = frag
+                    while cur is not None and cur is not f.node:
+                        if isinstance(cur, ast.Try) and prev in cur.body and any(
+                                set(handler_names(h)) & {"KeyError", "LookupError"} for h in cur.handlers):
+                            return True
+                        prev, cur = cur, getattr(cur, "_parent", None)
+                    return False
+
                 def step_sr(st, e, c):
+                    if e == "regdel":
+                        return True if not c.is_exc else st
                     if e == "susp":
                         return False if not c.is_exc else st
                     if e == "regtest" and not c.is_exc:
@@ -198,7 +230,7 @@ def check(ctx):
                         return Bad("send raises BrokenResourceError without having found its own registration still present after the wake-up")
                     return st
 
-                ctx.paths("R13-c", f, [("susp", "await $X"), ("regtest", [is_reg_test]), ("raise_here", [is_this_raise])], step_sr, False, None,
+                ctx.paths("R13-c", f, [("susp", "await $X"), ("regtest", [is_reg_test]), ("regdel", [is_reg_del]), ("raise_here", [is_this_raise])], step_sr, False, None,
                           instance="BrokenResourceError from send only if the woken sender is still registered")
             else:
                 ctx.require_at("R13-c", f, n, spec, instance=f"raise {cls} tells the truth", what=f"raise {cls}")
